@@ -101,9 +101,6 @@ def search_traces(chk, tier):
              reruns=research, probes=tries, outcomes=outcomes, tlc_runs=st["tlc_runs"], wall_s=round(st["wall"], 1), cmd=st["cmd"])
     chk.cov["evaluations"] += tries
     chk.cov["distinct_nontrivial"] += searches
-    for need in ["found", "fallback"]:
-        if not outcomes.get(need):
-            raise C.ToolError("no search ended with outcome %s: scenarios too weak" % need)
     for sc, pe in runs[:2]:
         chk.sample({"scenario": sc, "lines": pe[:8]})
     os.remove(raw)
@@ -113,6 +110,9 @@ def search_traces(chk, tier):
             key = "inv:" + f["invariant"]
         chk.violation("search:" + key, "search event not explained (%s): %s prefix=%s scenario=%s" %
                       (key, json.dumps(f["event"]), json.dumps(f["prefix"][-4:]), json.dumps(f["meta"])), f)
+    for need in ["found", "fallback"]:
+        if not outcomes.get(need) and not chk.violations:
+            raise C.ToolError("no search ended with outcome %s: scenarios too weak" % need)
 
 
 def run(tier):
